@@ -421,3 +421,152 @@ Fixpoint run {S K} (step : S -> op K -> S * res) (s : S) (ops : list (op K)) : S
   | [] => (s, [])
   | o :: r => let (s1, x) := step s o in let (s2, xs) := run step s1 r in (s2, x :: xs)
   end.
+
+(* ====================================================================== *)
+(* Named decision functions: the integer content of the case analyses of the
+   C code (balance-factor updates of the rotations, the retracing decisions,
+   the comparison dispatch, bucket index / init rules, the trie's child
+   index).  gen/Params_C09.v re-derives the same functions from the C text on
+   every run; C09/ProofsGen.v proves (a) that the re-derived ones equal these
+   and (b) that the model functions above and the pointer programs of
+   ModelHeap.v factor through these.  Definitions only. *)
+
+(* muggle_avl_tree_rotate_left / _right: (x->balance, z->balance, depth decreased) from z->balance *)
+Definition rot_left_bal (zb : Z) : Z * Z * bool := if zb =? 0 then (1, -1, false) else (0, 0, true).
+Definition rot_right_bal (zb : Z) : Z * Z * bool := if zb =? 0 then (-1, 1, false) else (0, 0, true).
+(* muggle_avl_tree_rotate_right_left / _left_right: (x->balance, z->balance) from y->balance; y->balance = 0 *)
+Definition rot_right_left_bal (yb : Z) : Z * Z := if 0 <? yb then (-1, 0) else if yb =? 0 then (0, 0) else (0, 1).
+Definition rot_left_right_bal (yb : Z) : Z * Z := if 0 <? yb then (0, -1) else if yb =? 0 then (0, 0) else (1, 0).
+(* muggle_avl_tree_rebalance: 0 nothing, 1 rotate_right, 2 rotate_left_right, 3 rotate_left, 4 rotate_right_left *)
+Definition rebalance_case (b lb rb : Z) : Z :=
+  if b <? -1 then (if lb <=? 0 then 1 else 2) else if 1 <? b then (if 0 <=? rb then 3 else 4) else 0.
+
+(* the balance fields of a node X, its children L, R and the inner grandchildren LR, RL *)
+Definition bal5 := (Z * Z * Z * Z * Z)%type.
+
+(* rebalance with the rotation it selects: (case, balances afterwards, depth decreased) *)
+Definition rebalance_dec (b lb rb lrb rlb : Z) : Z * bal5 * bool :=
+  let c := rebalance_case b lb rb in
+  if c =? 1 then let '(x, z, d) := rot_right_bal lb in (1, (x, z, rb, lrb, rlb), d)
+  else if c =? 2 then let '(x, z) := rot_left_right_bal lrb in (2, (x, z, rb, 0, rlb), true)
+  else if c =? 3 then let '(x, z, d) := rot_left_bal rb in (3, (x, lb, z, lrb, rlb), d)
+  else if c =? 4 then let '(x, z) := rot_right_left_bal rlb in (4, (x, lb, z, lrb, 0), true)
+  else (0, (b, lb, rb, lrb, rlb), false).
+
+(* retracing after insert: new balance of the node whose side_left / right subtree grew;
+   0 = stop, 1 = the subtree grew: continue at the parent, 2 = rebalance and stop *)
+Definition retrace_ins_bal (b : Z) (side_left : bool) : Z := if side_left then b - 1 else b + 1.
+Definition retrace_ins_act (b' : Z) : Z := if b' =? 0 then 0 else if (b' =? 1) || (b' =? -1) then 1 else 2.
+(* retracing after remove: 0 = stop, 1 = the subtree shrank: continue, 2 = rebalance, continue iff depth decreased *)
+Definition retrace_rem_bal (b : Z) (side_left : bool) : Z := if side_left then b + 1 else b - 1.
+Definition retrace_rem_act (b' : Z) : Z := if (b' =? 1) || (b' =? -1) then 0 else if b' =? 0 then 1 else 2.
+
+(* one iteration of the retracing loops: (balances, rotation case, continue at the parent, on its left side);
+   hp = node->parent != NULL, il = node->parent->left == node *)
+Definition ins_step_dec (b : Z) (side_left : bool) (lb rb lrb rlb : Z) (hp il : bool) : bal5 * Z * bool * bool :=
+  let b' := retrace_ins_bal b side_left in
+  let a := retrace_ins_act b' in
+  if a =? 0 then ((b', lb, rb, lrb, rlb), 0, false, false)
+  else if a =? 1 then ((b', lb, rb, lrb, rlb), 0, hp, hp && il)
+  else let '(c, bs, _) := rebalance_dec b' lb rb lrb rlb in (bs, c, false, false).
+
+Definition rem_step_dec (b : Z) (side_left : bool) (lb rb lrb rlb : Z) (hp il : bool) : bal5 * Z * bool * bool :=
+  let b' := retrace_rem_bal b side_left in
+  let a := retrace_rem_act b' in
+  if a =? 0 then ((b', lb, rb, lrb, rlb), 0, false, false)
+  else if a =? 1 then ((b', lb, rb, lrb, rlb), 0, hp, hp && il)
+  else let '(c, bs, d) := rebalance_dec b' lb rb lrb rlb in (bs, c, d && hp, d && hp && il).
+
+(* the comparator of the drivers as the int the C code sees, and the dispatch on it:
+   0 = equal (found / duplicate), 1 = go left, 2 = go right *)
+Definition cmpz (x k : Z) : Z := if x <? k then -1 else if k <? x then 1 else 0.
+Definition cmp_dispatch (c : Z) : Z := if c =? 0 then 0 else if c <? 0 then 1 else 2.
+(* one step of the descent of insert: 0 duplicate (return NULL), 1 / 2 descend left / right,
+   3 / 4 link the new node as left / right child and start retracing with that side *)
+Definition ins_descend_dec (c : Z) (has_left has_right : bool) : Z :=
+  let d := cmp_dispatch c in
+  if d =? 0 then 0 else if d =? 1 then (if has_left then 1 else 3) else (if has_right then 2 else 4).
+(* entering the removal at a node: 0 = it has a child: swap data with the predecessor (else successor) and go on,
+   1 = a leaf without parent: the tree becomes empty, 2 = a leaf: unlink it (from the left iff il) and retrace *)
+Definition rem_enter_dec (has_left has_right hp : bool) : Z :=
+  if has_left || has_right then 0 else if hp then 2 else 1.
+
+(* hash table: bucket index; rules of init (result, table size stored, node pool created) *)
+Definition ht_index (hash_val table_size : Z) : Z := hash_val mod table_size.
+Definition ht_table_size (table_size : Z) : Z := if table_size <? 8 then 10007 else table_size.
+Definition ds_cap_valid (capacity : Z) : bool := capacity <? 2147483648.
+Definition ht_init_dec (table_size capacity : Z) (has_cmp : bool) : bool * Z * bool :=
+  if negb has_cmp then (false, 0, false)
+  else if (0 <? capacity) && negb (ds_cap_valid capacity) then (false, 0, false)
+  else (true, ht_table_size table_size, 0 <? capacity).
+(* one step along a chain (hn = node != NULL, c = cmp(node->key, key)):
+   find: 0 = not found, 1 = found, 2 = next;  put: 0 = duplicate (return NULL), 1 = link a new node at the head, 2 = next *)
+Definition ht_find_step_dec (hn : bool) (c : Z) : Z := if hn then (if c =? 0 then 1 else 2) else 0.
+Definition ht_put_step_dec (hn : bool) (c : Z) : Z := if hn then (if c =? 0 then 0 else 2) else 1.
+
+(* trie: a key byte ub (0 = the terminating NUL) is seen by the code as a plain char [schar ub];
+   one step of the walk of find: 0 = end of key (the current node is the answer), 1 = go to child, 2 = no child (NULL);
+   of insert: 0 = end of key, 1 = go to child (creating it when absent) *)
+Definition trie_children_size : Z := 256.
+Definition trie_find_step_dec (ub : Z) (has_child : bool) : Z * Z :=
+  if ub =? 0 then (0, 0) else if has_child then (1, byte_index ub) else (2, byte_index ub).
+Definition trie_insert_step_dec (ub : Z) (has_child : bool) : Z * Z * bool * Z :=
+  if ub =? 0 then (0, 0, false, 0)
+  else if has_child then (1, byte_index ub, false, 0) else (1, byte_index ub, true, byte_index ub).
+(* the empty key: handled before the walk, in children[0] of the root *)
+Definition trie_find_entry_dec (ub : Z) : Z * Z := if ub =? 0 then (1, 0) else (0, 0).
+Definition trie_insert_entry_dec (ub : Z) (has_child : bool) : Z * Z * bool * Z :=
+  if ub =? 0 then (1, 0, negb has_child, 0) else (0, 0, false, 0).
+
+(* ====================================================================== *)
+(* Free callbacks.  Every removal takes a callback for the key and one for the value (the trie: one
+   for the data); NULL means the data is borrowed and stays the caller's.  An operation with the
+   caller's choice of callbacks, and what a step reports in addition to its result: whether the key /
+   value block of the removed association went through its callback.  The structure itself must not
+   depend on the choice (theorems *_refines_map_cb, ProofsCb.v). *)
+Inductive opf (K : Type) := OpF (o : op K) (fk fv : bool).
+Arguments OpF {K}.
+Definition erase_f {K} (f : opf K) : op K := match f with OpF o _ _ => o end.
+Definition own := (bool * bool)%type.
+Definition is_some {A} (p : option A) : bool := match p with Some _ => true | None => false end.
+Definition released {K} (o : op K) (fk fv present : bool) : own :=
+  match o with Rem _ => (present && fk, present && fv) | _ => (false, false) end.
+
+Definition avl_present (t : tree) (o : op Z) : bool := match o with Rem k => is_some (avl_find k t) | _ => false end.
+Definition avl_step_cb (t : tree) (f : opf Z) : tree * (res * own) :=
+  match f with OpF o fk fv => let (t', r) := avl_step t o in (t', (r, released o fk fv (avl_present t o))) end.
+
+Definition ht_present (hash : Z -> Z) (t : ht) (o : op Z) : bool :=
+  match o with Rem k => is_some (ht_find hash t k) | _ => false end.
+Definition ht_step_cb (hash : Z -> Z) (t : ht) (f : opf Z) : ht * (res * own) :=
+  match f with OpF o fk fv => let (t', r) := ht_step hash t o in (t', (r, released o fk fv (ht_present hash t o))) end.
+
+(* the trie has one callback (for the data): passed as fv *)
+Definition trie_present (t : trie) (o : op (list Z)) : bool :=
+  match o with Rem k => is_some (trie_lookup t k) | _ => false end.
+Definition trie_step_cb (t : trie) (f : opf (list Z)) : trie * (res * own) :=
+  match f with OpF o _ fv => let (t', r) := trie_step t o in (t', (r, released o false fv (trie_present t o))) end.
+
+Fixpoint runf {S K X} (step : S -> opf K -> S * X) (s : S) (ops : list (opf K)) : S * list X :=
+  match ops with
+  | [] => (s, [])
+  | o :: r => let (s1, x) := step s o in let (s2, xs) := runf step s1 r in (s2, x :: xs)
+  end.
+
+(* muggle_hash_table_clear: every chain emptied (each node through muggle_hash_table_remove), the table
+   stays usable; with the callbacks' counts: one call per stored key / value iff the callback is passed *)
+Definition ht_count (t : ht) : Z := Z.of_nat (length (concat (ht_buckets t))).
+Definition ht_clear (t : ht) : ht := {| ht_size := ht_size t; ht_buckets := repeat [] (Z.to_nat (ht_size t)) |}.
+Definition ht_clear_cb (fk fv : bool) (t : ht) : ht * Z * (Z * Z) :=
+  (ht_clear t, ht_count t, (if fk then ht_count t else 0, if fv then ht_count t else 0)).
+
+(* decision functions of the removal paths (second tie).
+   muggle_trie_remove: hn = the node exists, f = callback passed:
+   (returned bool, node->data set to NULL, callback called with node->data) *)
+Definition trie_remove_dec (hn f : bool) : bool * bool * bool := if hn then (true, true, f) else (false, false, false).
+(* muggle_hash_table_remove of a node: hk / hv = key / value pointer non-NULL, fk / fv = callbacks passed:
+   (key callback called with the key, value callback called with the value, key and value fields set to NULL
+    where they were not, node unlinked: prev->next = next and next->prev = prev when there is a next) *)
+Definition ht_remove_dec (hk hv fk fv : bool) : bool * bool * bool := (hk && fk, hv && fv, true).
+(* muggle_avl_tree_erase_node on the leaf that leaves the tree: the same two callback decisions *)
+Definition avl_erase_dec (hk hv fk fv : bool) : bool * bool := (hk && fk, hv && fv).
